@@ -282,9 +282,8 @@ func (cfg *Config) paramExp(pe *syntax.ParamExp) (string, error) {
 				}
 				str, err = syntax.Quote(str, syntax.LangBash)
 				if err != nil {
-					// Is this even possible? If a user runs into this panic,
-					// it's most likely a bug we need to fix.
-					panic(err)
+					// e.g. a null byte that came in through the environment
+					return "", err
 				}
 			case "E":
 				tail := str
